@@ -27,6 +27,18 @@ def exact_and_mag(form, v):
     return tot + t, mag + abs(t)
 
 
+def threshold_args():
+    """v with -(ln v) bit-equal to one of the two switch points (-1.71, 1.72) as computed by the platform's ln, plus the
+    neighbouring doubles (the platform's ln is the one the crate calls)"""
+    out = []
+    for thr in (-1.71, 1.72):
+        base = C.bits(math.exp(-thr))
+        hits = [d for d in range(-400, 401) if -math.log(C.fl(base + d)) == thr]
+        for d in hits:
+            out += [C.fl(base + d - 1), C.fl(base + d), C.fl(base + d + 1)]
+    return sorted(set(out))
+
+
 class P(Prop):
     ID = "C10"
     MODULE = "C10"
@@ -70,6 +82,7 @@ class P(Prop):
             vs.append(math.exp(-x))
         for kexp in (1, 2, 3, 10, 50, 100, 300, 500, 700, 900, 1000, 1020):
             vs += [2.0 ** kexp, 2.0 ** -kexp]
+        vs += threshold_args()
         vs += [10.0 ** e for e in range(-15, 16)] + [7.0, 0.5, 1e7, 1e-7, 1.0 - 2.0 ** -53, 1.0 + 2.0 ** -52, 4e-309, 1e-320, 5e-324]
         return vs
 
@@ -88,6 +101,12 @@ class P(Prop):
             sc = 10.0 ** -rng.randint(6, 17)
             form = [rng.choice([0.0, sc * rng.uniform(-1, 1)])] + [rng.choice([0.0, sc * rng.uniform(-2, 2)]) for _ in range(4)] + [sc * rng.choice([1.0, -1.0, rng.uniform(-3, 3)])]
             out.append(K.kernel_case(NAME, form + [v], cls="evaluate/tiny_v_small_u", libm=True))
+        # huge arguments with tiny u: u*R(x) is far below the normal range while the term u*v*x^5*R(x) is of ordinary size
+        for _ in range(30 if tier == "quick" else 400):
+            v = rng.uniform(1, 9.9) * 10.0 ** rng.randint(280, 305)
+            u = rng.choice([1.0, -1.0, 3.0]) * 10.0 ** -rng.randint(296, 306)
+            form = [rng.choice([0.0, 1.0])] + [rng.choice([0.0, u * rng.uniform(-2, 2)]) for _ in range(4)] + [u]
+            out.append(K.kernel_case(NAME, form + [v], cls="evaluate/huge_v_tiny_u", libm=True))
         for _ in range(30 if tier == "quick" else 400):
             x = rng.choice([rng.uniform(-3, 3), rng.uniform(-40, 40), -1.71, 1.72, C.fl(C.next_up(C.bits(-1.71))), C.fl(C.next_down(C.bits(1.72))), 0.0, 1e-9])
             for nm in ("taylor::exp_5_taylor", "taylor::exp_5_tail_taylor", "taylor::exp_5_tail_anal"):
